@@ -15,6 +15,8 @@ import (
 	"sort"
 	"strconv"
 	"strings"
+	"sync/atomic"
+	"syscall"
 	"time"
 )
 
@@ -136,6 +138,15 @@ type Ctx struct {
 	maxHash  int
 	sampleBy map[string]int
 	cut      bool
+
+	// non-termination watchdog (see watchdog()): progress counter and the case being evaluated
+	progress int64
+	curKind  string
+	curA     string
+	curB     string
+	curMk    func() *Case
+	// ParseKind is the evaluator kind of (base, input) cases enumerated by the shared input spaces
+	ParseKind string
 }
 
 func (c *Ctx) Thorough() bool { return c.Tier == "thorough" }
@@ -156,7 +167,14 @@ func (c *Ctx) Mine() bool {
 	return int((c.counter+c.Seed)%int64(c.NShards)) == c.Shard
 }
 
-func (c *Ctx) Eval()               { c.space.Evals++ }
+func (c *Ctx) Eval()               { c.space.Evals++; atomic.AddInt64(&c.progress, 1) }
+
+// Cur names the case about to be evaluated (cheap form: evaluator kind + two strings), so that the watchdog can
+// produce a replayable artefact if the library never returns from it.
+func (c *Ctx) Cur(kind, a, b string) { c.curKind, c.curA, c.curB, c.curMk = kind, a, b, nil }
+
+// CurCase is the general form (a closure building the case; used where one evaluation costs microseconds anyway).
+func (c *Ctx) CurCase(mk func() *Case) { c.curMk = mk }
 func (c *Ctx) Nontrivial()         { c.space.Nontrivial++ }
 func (c *Ctx) Count(k string, n int64) { c.R.Counters[k] += n }
 
@@ -348,6 +366,7 @@ func RunWorker(ck *Check, tier string, shard, n int, seed int64, out string, sta
 		known: loadKnown(), hashes: map[uint64]struct{}{}, maxHash: 2_000_000, sampleBy: map[string]int{},
 		Deadline: start.Add(deadlineFor(tier)), Scratch: filepath.Dir(out)}
 	ctx.Space("default")
+	go ctx.watchdog(out)
 	func() {
 		defer func() {
 			if r := recover(); r != nil {
@@ -356,6 +375,94 @@ func RunWorker(ck *Check, tier string, shard, n int, seed int64, out string, sta
 		}()
 		ck.Body(ctx)
 	}()
+	atomic.StoreInt64(&ctx.progress, -1<<62) // finished: the watchdog must not fire while results are written
+	ctx.writeResult(out)
+}
+
+func cpuSeconds() float64 {
+	var ru syscall.Rusage
+	if syscall.Getrusage(syscall.RUSAGE_SELF, &ru) != nil {
+		return 0
+	}
+	return float64(ru.Utime.Sec+ru.Stime.Sec) + float64(ru.Utime.Usec+ru.Stime.Usec)/1e6
+}
+
+// StallCPUSeconds is the amount of CPU time this process must burn without completing a single case before the
+// watchdog concludes that the library does not terminate on the current case. It is measured in CPU time, not
+// wall-clock time, so that a starved or stopped process never trips it; the longest legitimate single evaluation
+// of any check is about two seconds.
+var StallCPUSeconds = 60.0
+
+// watchdog turns "the code under test never returns" from a hung check into a reported violation. Without it a
+// change that makes the parser loop forever on one input of a check's space would hang that check (only C02 runs
+// on the instrumented build with a statement budget).
+func (c *Ctx) watchdog(out string) {
+	last := atomic.LoadInt64(&c.progress)
+	cpu0 := cpuSeconds()
+	for {
+		time.Sleep(2 * time.Second)
+		p := atomic.LoadInt64(&c.progress)
+		if p < 0 {
+			return
+		}
+		if p != last {
+			last, cpu0 = p, cpuSeconds()
+			continue
+		}
+		if cpuSeconds()-cpu0 < StallCPUSeconds {
+			continue
+		}
+		// spinning: report and leave
+		var cs *Case
+		if c.curMk != nil {
+			cs = c.curMk()
+		} else if c.curKind != "" {
+			cs = &Case{Kind: c.curKind, S: Strs(c.curA, c.curB)}
+		} else {
+			cs = &Case{Kind: "unknown"}
+		}
+		buf := make([]byte, 1<<16)
+		buf = buf[:runtime.Stack(buf, true)]
+		f := &Finding{Class: "no-termination", Subject: firstLine(mustJSON(cs), 200),
+			Detail: fmt.Sprintf("the library did not return from this case: the worker burnt %.0f s of CPU without completing it (non-termination). Innermost library frames: %s", StallCPUSeconds, libraryFrames(string(buf)))}
+		c.R.NViolations++
+		c.R.Violations = append(c.R.Violations, &Violation{Property: c.Property, Finding: f, Case: cs})
+		c.R.Exhaustive = false
+		c.Note("a worker stopped at a non-terminating case; its remaining work was not done")
+		c.writeResult(out)
+		os.Exit(0)
+	}
+}
+
+func firstLine(s string, n int) string {
+	if len(s) > n {
+		return s[:n]
+	}
+	return s
+}
+
+// libraryFrames extracts function names of the code under test from a goroutine dump (deterministic part only).
+func libraryFrames(dump string) string {
+	var out []string
+	for _, l := range strings.Split(dump, "\n") {
+		if strings.HasPrefix(l, "github.com/nlnwa/whatwg-url/") {
+			fn := strings.TrimPrefix(l, "github.com/nlnwa/whatwg-url/")
+			if j := strings.LastIndex(fn, "("); j > 0 {
+				fn = fn[:j]
+			}
+			out = append(out, fn)
+			if len(out) == 5 {
+				break
+			}
+		}
+	}
+	if len(out) == 0 {
+		return "(none found)"
+	}
+	return strings.Join(out, " < ")
+}
+
+func (ctx *Ctx) writeResult(out string) {
 	ctx.R.States = int64(len(ctx.hashes))
 	hb := make([]byte, 8*len(ctx.hashes))
 	i := 0
@@ -649,6 +756,16 @@ func Replay(path string) int {
 		fmt.Fprintln(os.Stderr, "no evaluator for kind", v.Case.Kind)
 		return 2
 	}
+	go func() { // the same non-termination watchdog as in the workers
+		c0 := cpuSeconds()
+		for {
+			time.Sleep(2 * time.Second)
+			if cpuSeconds()-c0 >= StallCPUSeconds {
+				fmt.Printf("VIOLATION property=%s replay=%s\n  class=no-termination the library did not return from this case (%.0f s of CPU)\n", v.Property, path, StallCPUSeconds)
+				os.Exit(1)
+			}
+		}
+	}()
 	f := ev(v.Case)
 	if f == nil {
 		fmt.Printf("replay %s: property=%s no longer violated\n", path, v.Property)
